@@ -240,13 +240,17 @@ def build_poscar(ctx, natom=2, variant="lower"):
 def build_cube(ctx, natom=2, variant="234"):
     from iodata.utils import Cube
     sym = ctx.mode == "sym"
-    shape = {"111": (1, 1, 1), "234": (2, 3, 4), "117": (1, 1, 7), "216": (2, 1, 6)}[variant]
+    shape = {"111": (1, 1, 1), "234": (2, 3, 4), "117": (1, 1, 7), "216": (2, 1, 6), "234F": (2, 3, 4), "234T": (2, 3, 4)}[variant]
     probes = _probes(natom)
     z = _atnums(ctx, natom, probes)
     c = _coords(ctx, natom, probes, -900, 900)
     origin = ctx.real_array("org", (3,), lo=-900, hi=900)
     axes = ctx.real_array("ax", (3, 3), lo=-900, hi=900)
     data = ctx.real_array("rho", shape)
+    if variant == "234F":
+        data = np.asfortranarray(data)                  # same values, column-major memory layout
+    if variant == "234T":
+        data = ctx.real_array("rhoT", shape[::-1]).transpose(2, 1, 0)      # a transposed view of another array
     title = ctx.choice([None, "3 density of 2 electrons"], label="title")
     kw = dict(atnums=z, atcoords=c, cube=Cube(origin=origin, axes=axes, data=data), title=title)
     exp = dict(atnums=z, atcoords=c, title=title or "Created with IOData")
